@@ -92,6 +92,7 @@ pub fn main(args: &[String]) {
     walrus_rust::wal::verif_hooks::capture_deletions(true);
     walrus_rust::wal::verif_hooks::hold_marker_persister(true);
     let mut wal: Option<Walrus> = None;
+    let mut fault_armed = false;
     let mut idx = start;
     let mut code = 0;
     while idx < lines.len() {
@@ -114,6 +115,16 @@ pub fn main(args: &[String]) {
             code = 77;
             break;
         }
+        if t[0] == "fault" {
+            // arm an injected I/O fault for the operation that follows (hook H1)
+            walrus_rust::wal::verif_hooks::arm_fault(t[1].parse().unwrap(), t[2].parse().unwrap(), false);
+            fault_armed = true;
+            writeln!(out, "ok").unwrap();
+            out.flush().unwrap();
+            continue;
+        }
+        let disarm_after = fault_armed;
+        fault_armed = false;
         let res = std::panic::catch_unwind(std::panic::AssertUnwindSafe(|| -> String {
             match t[0] {
                 "clock" => {
@@ -238,6 +249,9 @@ pub fn main(args: &[String]) {
                 }
             }
         }));
+        if disarm_after {
+            walrus_rust::wal::verif_hooks::disarm_fault();
+        }
         match res {
             Ok(s) => {
                 writeln!(out, "{}", s).unwrap();
